@@ -1,5 +1,6 @@
 import Orx.KSRun
 import Orx.GenThms.Ctor
+import Orx.GenThms.Surface
 /-! # C19 Non-consuming iteration leaves the source intact; iterators are independent -/
 namespace Orx.Props.C19
 open Orx Orx.KS
@@ -79,5 +80,19 @@ theorem source_clone_from_is_clone :
   ⟨clone_impls_define_clone_only.1, clone_impls_define_clone_only.2, range_clone_is_derived⟩
 
 end Source
+
+section Surface
+open Orx.GenThms.Surface
+
+/-- what can be cloned: counter and slice iterator by hand (`clone` only, so `clone_from` is `clone`), range iterator and `HasMore` derived;
+nothing else -/
+theorem source_clonables_are_the_modelled_ones :
+    sameSet (implsOf "Clone") ["AtomicCounter", "ConIterOfSlice"] = true ∧
+    fnsOf "Clone" "AtomicCounter" = [["clone"]] ∧ fnsOf "Clone" "ConIterOfSlice" = [["clone"]] ∧
+    sameSet (derivers "Clone") ["HasMore", "ConIterOfRange"] = true ∧
+    sameSet (derivers "Copy") ["HasMore"] = true :=
+  Orx.GenThms.Surface.the_clonables
+
+end Surface
 
 end Orx.Props.C19
